@@ -54,4 +54,49 @@ Proof.
   pose proof (t_insert_buckets _ _ _ _ _ Hcons Ht) as Hb.
   destruct Hb as [Hb|Hb]; [rewrite Hb, N.eqb_refl; reflexivity|]. destruct (nb t2 =? nb (tb s)); [reflexivity|]. rewrite Hb. apply N.eqb_refl.
 Qed.
+(* ---------- the whole C13 monitor ---------- *)
+Definition hb_ok (s : cache) (p : op) (o : oracle) (s' : cache) : Prop :=
+  match p with
+  | Insert _ _ => len s' - 1 <= capacity (t_erase (tb s) (o_tomb o))    (* the table was not over-full: hashbrown's own invariant *)
+  | TryInsert _ _ => len s <= capacity (tb s)
+  | _ => True
+  end.
+
+Theorem c13_mon_sound s p o s' out evs : Inv E s -> wf_op E s p -> hb_ok s p o s' ->
+  stepA E VS fixed s p o = Some (s', out, evs) -> c13_mon s p out s' = true.
+Proof.
+  intros HI Hwf Hhb H. destruct p; cbn [c13_mon]; try (destruct out; reflexivity).
+  - (* insert *) destruct out; try reflexivity. cbn [hb_ok wf_op] in *. exact (c13_mon_growth_insert s k v o s' old evs HI Hwf H Hhb).
+  - destruct out; try reflexivity. cbn [hb_ok wf_op] in *. exact (c13_mon_growth_try_insert s k v o s' evs HI Hwf H Hhb).
+  - (* reserve *) destruct out; try reflexivity. cbn [stepA] in H.
+    destruct (add64 (len s) n) as [w|] eqn:Ha; [|discriminate]. apply add64_inv in Ha as [-> _].
+    destruct (N.ltb_spec (capacity (tb s)) (len s + n)); [|injection H as <- _; apply N.leb_le; lia].
+    unfold do_realloc in H. destruct (t_alloc E (len s + n) (o_alloc o)) as [t| |] eqn:Hal; try discriminate.
+    injection H as <- _. cbn [tb set_ents]. apply N.leb_le. now destruct (t_alloc_ok E _ _ _ Hal).
+  - (* try_reserve *) cbn [stepA] in H. destruct (add64 (len s) n) as [w|] eqn:Ha.
+    + apply add64_inv in Ha as [-> _]. destruct (N.ltb_spec (capacity (tb s)) (len s + n)).
+      * unfold do_realloc in H. destruct (t_alloc E (len s + n) (o_alloc o)) as [t| |] eqn:Hal; injection H as <- <- _.
+        -- cbn [tb set_ents]. apply N.leb_le. now destruct (t_alloc_ok E _ _ _ Hal).
+        -- now rewrite !N.eqb_refl.
+        -- now rewrite !N.eqb_refl.
+      * injection H as <- <- _. apply N.leb_le. lia.
+    + injection H as <- <- _. now rewrite !N.eqb_refl.
+  - (* shrink_to *) destruct out; try reflexivity. cbn [stepA] in H. unfold do_shrink in H. cbn [shrink_orig fixed] in H.
+    destruct (N.ltb_spec (N.max (len s) n) (capacity (tb s))) as [Hlt|Hge].
+    + destruct (t_alloc E (N.max (len s) n) (o_alloc o)) as [t| |] eqn:Hal; try discriminate.
+      destruct (N.ltb_spec (capacity t) (capacity (tb s))); injection H as <- _; cbn [tb set_ents].
+      * destruct (t_alloc_ok E _ _ _ Hal) as (Hg & _). apply andb_true_iff. split; [apply N.leb_le; lia|].
+        destruct (N.max (len s) n <=? capacity (tb s)); [apply N.leb_le; lia|reflexivity].
+      * rewrite N.leb_refl. cbn [andb]. destruct (N.max (len s) n <=? capacity (tb s)); reflexivity.
+    + injection H as <- _. rewrite N.leb_refl. cbn [andb]. destruct (N.max (len s) n <=? capacity (tb s)); reflexivity.
+  - (* shrink_to_fit *) destruct out; try reflexivity. cbn [stepA] in H. unfold do_shrink in H. cbn [shrink_orig fixed] in H.
+    rewrite N.max_0_r in H.
+    destruct (N.ltb_spec (len s) (capacity (tb s))) as [Hlt|Hge].
+    + destruct (t_alloc E (len s) (o_alloc o)) as [t| |] eqn:Hal; try discriminate.
+      destruct (N.ltb_spec (capacity t) (capacity (tb s))); injection H as <- _; cbn [tb set_ents].
+      * destruct (t_alloc_ok E _ _ _ Hal) as (Hg & _). apply andb_true_iff. split; [apply N.leb_le; lia|].
+        destruct (len s <=? capacity (tb s)); [apply N.leb_le; lia|reflexivity].
+      * rewrite N.leb_refl. cbn [andb]. destruct (len s <=? capacity (tb s)); reflexivity.
+    + injection H as <- _. rewrite N.leb_refl. cbn [andb]. destruct (len s <=? capacity (tb s)); reflexivity.
+Qed.
 End Params.
